@@ -153,7 +153,7 @@ var vEnvValues = []string{"foo", "8080", "true", "null", "~", "", "1.5", "0x10",
 
 var vEnvPieces = []string{"a", " ", "${env:VC12_A}", "${env:VC12_B}", "${VC12_A}", "${VC12_C}", "${env:VC12_U}", "${VC12_U}", "${env:VC12_U:-dflt}",
 	"${env:VC12_A:-dflt}", "${env:VC12_U:-}", "${env:VC12_U:-${env:VC12_B}}", "${env:VC12_U:-a:-b}", "${env:1BAD}", "${env:a.b}", "${env:}", "${env:VC12_A }",
-	"$$", "$", "$${env:VC12_A}", ":4317", "${env:VC12_D}", "${env:VC12_E}", "${env:$VC12_A}", "${env:VC12_U:-$$x}", "}", "{"}
+	"$$", "$", "$${env:VC12_A}", ":4317", "${env:VC12_D}", "${env:VC12_E}", "${env:$VC12_A}", "${env:VC12_U:-$$x}", "}", "{", "${env:VC12_A$}", "${$VC12_A}", "${VC12_A$$}", "${$}"}
 
 func TestVerifC12Env(t *testing.T) {
 	out := vOpen(t)
@@ -191,7 +191,7 @@ func vEnvString(rnd *rand.Rand) string {
 	var b strings.Builder
 	for i := 0; i < k; i++ {
 		p := vEnvPieces[rnd.IntN(len(vEnvPieces))]
-		if (strings.Contains(p, "BAD") || strings.Contains(p, "a.b") || p == "${env:}" || strings.Contains(p, "A }") || strings.Contains(p, ":$")) && rnd.IntN(4) > 0 {
+		if (strings.Contains(p, "BAD") || strings.Contains(p, "a.b") || p == "${env:}" || strings.Contains(p, "A }") || strings.Contains(p, ":$") || strings.Contains(p, "A$") || strings.Contains(p, "{$")) && rnd.IntN(4) > 0 {
 			p = "${env:VC12_A}" // invalid names / $ in the name: keep them, but rarer
 		}
 		b.WriteString(p)
